@@ -290,7 +290,12 @@ Definition judge_obs (t : itree) (ob : obs) : N :=
                end in
   let mw := match ob_wev ob with Some e => write_tree e | None => None end in
   let c_write := match ob_wev ob with
-                 | Some _ => negb (forallb (fun out => opt_eqb itree_eqb mw (option_map (canon []) out)) (ob_outs ob))
+                 | Some _ =>
+                     (* output that the independent parsers reject cannot be compared here; it fails the oracle *)
+                     negb (forallb (fun out => match out with
+                                               | Some x => opt_eqb itree_eqb mw (Some (canon [] x))
+                                               | None => true
+                                               end) (ob_outs ob))
                  | None => false
                  end in
   let app := applicable (ob_pl ob) t in
